@@ -262,6 +262,8 @@ def outertrig(ctx):
         c = f"codegen.codegen_outertan#{name}"
         try:
             fn, out, coeffs, log = run_outer(ctx, repo, "codegen_outertan", d, keys, c)
+            if out[0] == "return" and isinstance(out[1], Unk):
+                raise Unknown(c, f"evaluates to {out[1]!r}", fn)       # e.g. a geometric product, which needs a metric
         except Unknown:
             # not evaluable: still decidable is the necessary condition that outertan takes a (geometric) inverse or
             # quotient at all - outersin * <something built with the outer product only> is not outersin / outercos
